@@ -122,16 +122,18 @@ type Flow struct {
 	byID    map[uint16]*Pub
 	handed  map[uint32][]HandedRef
 
-	pubTasksLive int
-	reqTasksLive int
-	Reqs         []*Req
-	reqByMarker  map[string]*Req
-	PingReqWire  []int // steps at which a complete PINGREQ was on the wire
-	QStartStep   int
-	issuedStep   int  // step at which the workload was completely issued
-	StalledEarly bool // the quiescence phase was declared because the world stalled with calls outstanding
-	QStartTime   time.Duration
-	FaultSteps   int
+	pubTasksLive      int
+	reqTasksLive      int
+	Reqs              []*Req
+	reqByMarker       map[string]*Req
+	PingReqWire       []int // steps at which a complete PINGREQ was on the wire
+	QStartStep        int
+	issuedStep        int // step at which the workload was completely issued
+	failedAttemptStep int
+	failedAttemptTime time.Duration
+	StalledEarly      bool // the quiescence phase was declared because the world stalled with calls outstanding
+	QStartTime        time.Duration
+	FaultSteps        int
 
 	lastOnline     bool
 	sigKnown       bool // the signals could be observed at the last step boundary
@@ -533,6 +535,12 @@ func (f *Flow) readerTask(s *Sim) {
 		// offline when invoked: the call was a connect attempt, and it failed
 		// (and never came online during the call)
 		f.readerIdleAfterFailedAttempt = knownAtInvoke && !onAtInvoke && len(f.OnlineSteps) == onlinesAtInvoke && !errors.Is(err, mqtt.ErrClosed) && !s.dead
+		if f.readerIdleAfterFailedAttempt {
+			f.failedAttemptStep, f.failedAttemptTime = w.Steps, s.Now()
+			for _, r := range f.ActiveReqs {
+				r.relAtFail = s.Releases[r.Task]
+			}
+		}
 		if errors.Is(err, mqtt.ErrClosed) {
 			f.ReaderClosed = true
 			return
@@ -1269,6 +1277,8 @@ type Req struct {
 	pingWires          int  // PINGREQ packets on the wire when the call started
 	relAtQuit          int  // releases of the task when its quit was closed
 	quitFlagged        bool
+	attemptFlagged     bool
+	relAtFail          int // releases of the task when the last connect attempt failed
 	quitTime           time.Duration
 	pongMet            int // step at which a PINGRESP was handed over while this Ping had not submitted
 }
